@@ -648,8 +648,9 @@ def rule_restore(ctx):
 
 
 def run(ctx):
+    S = ctx.soft
     from .modelstate import rule_emptied
-    return [rule_array(ctx), rule_slots(ctx), rule_tokens(ctx),
-            rule_token_classes(ctx), rule_hooks(ctx), rule_restore(ctx),
-            rule_emptied(ctx, 'C17', 'C17.emptied'), rule_getattr(ctx),
-            rule_global(ctx)]
+    return [S(rule_array, ctx), S(rule_slots, ctx), S(rule_tokens, ctx),
+            S(rule_token_classes, ctx), S(rule_hooks, ctx), S(rule_restore, ctx),
+            S(rule_emptied, ctx, 'C17', 'C17.emptied'), S(rule_getattr, ctx),
+            S(rule_global, ctx)]
